@@ -898,6 +898,14 @@ archive_write_mtree_header(struct archive_write *a,
 			mtree->output_global_set = 0;/* Disabled. */
 	}
 
+	/* Sanity check. */
+	if (archive_entry_pathname(entry) == NULL ||
+	    archive_entry_pathname(entry)[0] == '\0') {
+		archive_set_error(&a->archive, ARCHIVE_ERRNO_MISC,
+		    "Can't record entry in mtree file without pathname");
+		return (ARCHIVE_FAILED);
+	}
+
 	mtree->entry_bytes_remaining = archive_entry_size(entry);
 
 	/* While directory only mode, we do not handle non directory files. */
